@@ -283,9 +283,13 @@ def r16e(R):
              and 'content' in norm(n.ast.left)]
     got = [A.try_fold(n.ast.comparators[0], rv) for n in conds[:2]]
     first_const = A.calls_nodes(rv, 'Parser._current_constant')
+    # both tests are made, and made before the token is tried as a constant
+    # (they may sit behind a test of the token class: a quoted "{" is a
+    # string)
+    after_const = cfg.reachable_from([m for n in first_const for m, _l in n.succs]) \
+        if first_const else []
     ok = got == ['{', '['] and first_const and all(
-        cfg.find_path([cfg.entry], lambda n: n in first_const, avoid=[c]) is None
-        for c in conds[:2])
+        c not in after_const and c not in first_const for c in conds[:2])
     R.check(rv, '{ and [ tested before the literal cases', bool(ok),
             '_rvalue no longer recognises { expr } and [ call ] before it '
             'treats the token as a literal')
